@@ -85,6 +85,7 @@ func sharded(t *testing.T, testName string, nShards int) (int, int, bool) {
 		go func(i int) {
 			defer wg.Done()
 			from := *flagFrom
+			wedges := 0
 			for {
 				out, err := runChild(i, outs[i], "-from", fmt.Sprint(from))
 				if err == nil {
@@ -106,8 +107,21 @@ func sharded(t *testing.T, testName string, nShards int) (int, int, bool) {
 					return
 				}
 				ok := false
+				tries := 2
+				if selfReported {
+					// a wedge costs seconds to detect: one confirmation alone, and after two confirmed wedges of this shard the
+					// records are taken as they are; after six the shard stops (the violation is established)
+					wedges++
+					tries = 1
+					if wedges > 2 {
+						tries = 0
+					}
+					if wedges > 6 {
+						return
+					}
+				}
 				solo.Lock()
-				for t := 0; t < 2 && !ok; t++ {
+				for t := 0; t < tries && !ok; t++ {
 					retry := outs[i] + ".retry"
 					os.Remove(retry)
 					if _, e2 := runChild(i, retry, "-only", fmt.Sprint(idx)); e2 == nil {
